@@ -24,12 +24,15 @@ echo "demo with change       : $with"
 echo "demo without change    : $without"
 cp patch.diff "$dst/patch.diff"; cp tests/seeded_demo.rs "$dst/seeded_demo.rs"; [ -f NOTES.md ] && cp NOTES.md "$dst/NOTES.md"
 # now our checks
+results=""
+if [ -z "${CONFIRM_ONLY:-}" ]; then
 cd /repo || exit 2
 if ! git diff --quiet; then echo "refusing: /repo dirty"; exit 2; fi
 trap 'git -C /repo checkout -q -- .' EXIT
 git apply "$dst/patch.diff" || { echo "patch does not apply to /repo"; exit 2; }
+fi
 cd /verif
-results=""
+[ -n "${CONFIRM_ONLY:-}" ] && set --
 for p in "$@"; do
   out=$(./check "$p" "$tier" 2>&1); code=$?
   sig=$(echo "$out" | grep -E "^  \[" | head -1 | sed -E 's/^  \[([^]]*)\].*/\1/')
